@@ -62,6 +62,20 @@ def ll_unequal(x):
     return float(np.logaddexp(a, b))
 
 
+def ll_hole(x):
+    """Gaussian on the half space x0 < 2, zero likelihood elsewhere (a hard constraint)."""
+    x = np.asarray(x, dtype=float)
+    if x[0] >= 2.0:
+        return -np.inf
+    return float(-0.5 * np.sum((x - 1.0) ** 2) / 4.0)
+
+
+def ll_weak(x):
+    """Nearly flat likelihood: the schedule jumps from beta=0 to 1 in one step."""
+    x = np.asarray(x, dtype=float)
+    return float(-0.5 * np.sum((x - 1.0) ** 2) / 2500.0)
+
+
 def ll_flat(x):
     return 0.0
 
